@@ -118,7 +118,7 @@ Definition law_entry (law : st -> ev -> st -> outcome -> bool) (toks : list Z) :
 
 Definition entry (sel : Z) (toks : list Z) : list Z :=
   match sel with
-  | 1 => match run_dec dInput toks with
+  | 1 | 2 => match run_dec dInput toks with
          | Some (s, h) => trace s h 1
          | None => bad_input end
   | 101 => law_entry (fun s e s' _ => law_only_by_request s e s') toks
@@ -131,5 +131,11 @@ Definition entry (sel : Z) (toks : list Z) : list Z :=
   | 108 => law_entry law_workqueue toks
   | 109 => law_entry (fun s e s' _ => law_marker_discipline s e s') toks
   | 110 => law_entry (fun s e s' _ => law_sync_moves s e s') toks
+  (* full-strength laws of the stale-lister stream (selector 2) *)
+  | 111 => law_entry (fun s e s' _ => law_full_closed_empty_X s e s') toks
+  | 112 => law_entry (fun s e s' _ => law_full_sync_moves_X s e s') toks
+  | 121 => law_entry (fun s e s' _ => law_full_closed_empty_Y s e s') toks
+  | 122 => law_entry (fun s e s' _ => law_full_sync_moves_Y s e s') toks
+  | 123 => law_entry (fun _ _ s' _ => law_no_stuck_child s') toks
   | _ => bad_input
   end.
